@@ -22,7 +22,10 @@ def run(ctx):
         t, _ = codec.run_mode(ctx, p, "c13", env=env, reclass=codec.sanity_reclass(sch) if sch else None)
         for k, v in t.items():
             tot[k] = tot.get(k, 0) + v
-        if p.config == "tl2all":
+        if p.config == "tl2all" and p.schema == "casestl2":
+            # the interpreter that supplies the byte roles does not model TL2-origin types (finding F35, C12): no depth transformations on this set
+            ctx.cov.setdefault("counters", {})["deep_sets_skipped_(interpreter_does_not_model_tl2_origin_types)"] = 1
+        elif p.config == "tl2all":
             env = {"VERIF_VALUES": 60 if thorough else 16, "VERIF_TL2WL": "*", "VERIF_SCHEMA_FILES": ":".join(p.files)}
             t, _ = codec.run_mode(ctx, p, "c13deep", env=env, what="c13deep on %s/%s" % (p.schema, p.config))
             for k, v in t.items():
